@@ -73,7 +73,7 @@ template<> struct ScalarIO<S> {
 #endif
 
 static bool dispatch(const Case& c, Out<S>& o){
-#define X(name, type) if(c.group==name) return (c.op.size()>1 && c.op[0]=='P' && isdigit(c.op[1])) ? Pred<type>::run(c,o) : GroupRunner<type>::run(c,o);
+#define X(name, type) if(c.group==name) return (c.op.size()>1 && (c.op[0]=='P' || c.op[0]=='J') && isdigit(c.op[1])) ? Pred<type>::run(c,o) : GroupRunner<type>::run(c,o);
   VQ_GROUPS
 #undef X
   return false;
